@@ -26,6 +26,9 @@ pub enum Case16 {
     /// a construction that must be refused (twice in a row), then every constructor on a valid shape in the same
     /// thread: a refusal leaves nothing behind
     AfterRefusal { bad: BadCtor, dims: Vec<usize>, vals: Vec<f64> },
+    /// `arr!` invocations written out literally, nested to depth 3, valid ones and ragged ones (the macro sees the
+    /// inner `arr![..]` tokens, which a macro rule may treat differently from an expression that evaluates to an array)
+    MacroLiterals,
 }
 
 #[derive(Clone, Debug, Serialize, Deserialize)]
@@ -344,6 +347,7 @@ impl CaseKind for Case16 {
             Case16::Construct { vals, dims } | Case16::Equality { vals, dims } => vals.len() + dims.len(),
             Case16::Refuse(_) => 4,
             Case16::AfterRefusal { vals, dims, .. } => vals.len() + dims.len() + 4,
+            Case16::MacroLiterals => 1,
         }
     }
     fn sample(&self) -> Value {
@@ -353,6 +357,7 @@ impl CaseKind for Case16 {
             Case16::Equality { dims, .. } => json!({"equality": dims}),
             Case16::Refuse(b) => json!({"refuse": format!("{:?}", b)}),
             Case16::AfterRefusal { bad, dims, .. } => json!({"refuse-twice": format!("{:?}", bad), "then-construct": dims}),
+            Case16::MacroLiterals => json!("arr! literals"),
         }
     }
     fn run(&self) -> Outcome {
@@ -381,6 +386,10 @@ impl CaseKind for Case16 {
                     .and_then(|_| run_construct(dims, vals).map_err(|(kd, d)| (format!("{}:after-a-refused-construction", kd), format!("after a refused construction ({:?}) in the same thread: {}", bad, d))));
                 (r, true, "refusal-then-construction")
             }
+            Case16::MacroLiterals => {
+                k.s("macro-literals");
+                (run_macro_literals(), true, "macro-literals")
+            }
         };
         let classes = vec![format!("kind:{}", class)];
         match res {
@@ -388,6 +397,36 @@ impl CaseKind for Case16 {
             Err((kind, detail)) => Outcome::fail(kind.split(':').next().unwrap_or("c16"), kind.clone(), detail, k.finish(), classes),
         }
     }
+}
+
+fn run_macro_literals() -> Result<(), (String, String)> {
+    let e = |k: &str, d: String| (k.to_string(), d);
+    let ok = |what: &str, a: Result<Array, String>, dims: &[usize], vals: &[f64]| -> Result<(), (String, String)> {
+        match a {
+            Err(p) => Err(e("unexpected-panic:macro", format!("{} panicked: {}", what, p))),
+            Ok(a) => check_layout(what, &a, dims, vals).map_err(|d| e("layout:macro", d)),
+        }
+    };
+    let refused = |what: &str, a: Result<Array, String>| -> Result<(), (String, String)> {
+        match a {
+            Err(_) => Ok(()),
+            Ok(a) => Err(e("not-refused:macro-ragged-rows", format!("{} has rows of different lengths and must panic, but returned dims {:?} values {:?}", what, a.dimensions(), a.values()))),
+        }
+    };
+    ok("arr![arr![1,2], arr![3,4]]", guarded(|| arr![arr![1.0, 2.0], arr![3.0, 4.0]]), &[2, 2], &[1.0, 2.0, 3.0, 4.0])?;
+    ok("arr![arr![1,2,3]]", guarded(|| arr![arr![1.0, 2.0, 3.0]]), &[1, 3], &[1.0, 2.0, 3.0])?;
+    ok("arr![arr![1], arr![2], arr![3]]", guarded(|| arr![arr![1.0], arr![2.0], arr![3.0]]), &[3, 1], &[1.0, 2.0, 3.0])?;
+    ok("arr![arr![arr![1,2],arr![3,4]], arr![arr![5,6],arr![7,8]]]", guarded(|| arr![arr![arr![1.0, 2.0], arr![3.0, 4.0]], arr![arr![5.0, 6.0], arr![7.0, 8.0]]]), &[2, 2, 2], &[1.0, 2.0, 3.0, 4.0, 5.0, 6.0, 7.0, 8.0])?;
+    ok("arr![arr![arr![1],arr![2],arr![3]]]", guarded(|| arr![arr![arr![1.0], arr![2.0], arr![3.0]]]), &[1, 3, 1], &[1.0, 2.0, 3.0])?;
+    // ragged rows, also where the lengths add up to rows x (length of the first row)
+    refused("arr![arr![1,2], arr![3,4,5], arr![6]]", guarded(|| arr![arr![1.0, 2.0], arr![3.0, 4.0, 5.0], arr![6.0]]))?;
+    refused("arr![arr![1,2], arr![3], arr![4,5,6]]", guarded(|| arr![arr![1.0, 2.0], arr![3.0], arr![4.0, 5.0, 6.0]]))?;
+    refused("arr![arr![1], arr![2,3]]", guarded(|| arr![arr![1.0], arr![2.0, 3.0]]))?;
+    refused("arr![arr![1,2,3], arr![4]]", guarded(|| arr![arr![1.0, 2.0, 3.0], arr![4.0]]))?;
+    refused("arr![arr![arr![1,2],arr![3]], arr![arr![4],arr![5,6]]]", guarded(|| arr![arr![arr![1.0, 2.0], arr![3.0]], arr![arr![4.0], arr![5.0, 6.0]]]))?;
+    refused("arr![arr![arr![1,2],arr![3,4]], arr![arr![5,6,7,8]]]", guarded(|| arr![arr![arr![1.0, 2.0], arr![3.0, 4.0]], arr![arr![5.0, 6.0, 7.0, 8.0]]]))?;
+    refused("arr![arr![arr![1],arr![2]], arr![arr![3,4]], arr![arr![5],arr![6],arr![7]]]", guarded(|| arr![arr![arr![1.0], arr![2.0]], arr![arr![3.0, 4.0]], arr![arr![5.0], arr![6.0], arr![7.0]]]))?;
+    Ok(())
 }
 
 fn refusals(shapes: &[Vec<usize>]) -> Vec<BadCtor> {
@@ -486,6 +525,7 @@ pub fn run(ctx: &Ctx) -> i32 {
             Some(if i % 2 == 0 { Case16::Construct { dims: d, vals } } else { Case16::Equality { dims: d, vals } })
         }));
     }
+    st.merge(ctx.run_indexed("arr-macro-literals", 1, None, |_| Some(Case16::MacroLiterals)));
     // a refusal (tried twice) followed by valid constructions in the same thread
     {
         let small: Vec<Vec<usize>> = vec![vec![2, 2], vec![3], vec![2, 1, 2], vec![1, 3], vec![2, 3, 2]];
